@@ -33,9 +33,9 @@ def leaf_key(x):
 def graph(x, depth=6):
     """structural snapshot of an object graph (containers and dataclass-like objects are descended)"""
     if depth == 0: return leaf_key(x)
-    if isinstance(x, dict): return ('dict', tuple((repr(k), graph(v, depth - 1)) for k, v in x.items()))
+    if isinstance(x, dict): return ('dict', tuple((graph(k, 2), graph(v, depth - 1)) for k, v in x.items()))
     if isinstance(x, (list, tuple)): return (type(x).__name__, tuple(graph(v, depth - 1) for v in x))
-    if isinstance(x, (set, frozenset)): return ('set', tuple(sorted(repr(v) for v in x)))
+    if isinstance(x, (set, frozenset)): return ('set', tuple(sorted(str(graph(v, 2)) for v in x)))
     if hasattr(x, '__dataclass_fields__') and not isinstance(x, type):
         return ('dc', type(x).__name__, id(x), tuple((f, graph(getattr(x, f), depth - 1)) for f in x.__dataclass_fields__))
     return leaf_key(x)
@@ -132,6 +132,10 @@ def execute(cfg, V):
     obs = []
     watched = {}
     st0 = module_state()
+    if PRISTINE is not None:
+        d0 = diff_state(PRISTINE, st0)
+        # an earlier operation in this process left module state behind (it is reported by that operation's own check as well)
+        obs.append(Ob('module state equals its import-time snapshot before the call' + (f' (changed: {d0[:3]})' if d0 else ''), 1 if d0 else 0))
 
     def check(tag):
         st1 = module_state()
@@ -258,6 +262,9 @@ OPS = ['net_solve', 'net_remove_short', 'net_remove_short_keep', 'net_remove_ope
        'load_network', 'load_circuit', 'load_component', 'load_to_complex_degree', 'load_dictify', 'load_undictify', 'load_dictify_circuit']
 
 
+PRISTINE = None
+
+
 def worker(cfg):
     res = {'cfg': cfg, 'key': json.dumps(cfg, sort_keys=True)}
     from symx.npf import NPFacade
@@ -303,11 +310,14 @@ def main(tier):
     for f, ln, why in bad:
         rec['violations'].append({'pid': PID, 'cfg': {'op': 'ast_scan'}, 'inputs': {}, 'sig': {'kind': 'ast', 'obligation': 'no hidden state', 'exception': None, 'where': f'{f}:{ln}', 'why': why}})
     rep.add(rec)
-    with driver.FnTrace() as ft:
+    global PRISTINE
+    cirlib.repo(); C17.repo()
+    PRISTINE = module_state()             # import-time snapshot, inherited by the forked workers
+    driver.run_pool(driver.guarded(worker), cfgs, rep, chunksize=1)
+    with driver.FnTrace() as ft:          # evidence only; after the pool so that it cannot disturb the workers' state
         for o in ('net_passive', 'cir_transient', 'load_network'):
             driver.guarded(worker)({'op': o})
     rep.functions |= ft.seen
-    driver.run_pool(driver.guarded(worker), cfgs, rep, chunksize=1)
     # purity contracts with symbolic strings (CrossHair): load twice, deep snapshot
     res = chrun.run_module(rep, 'ch.C17_ch', 30 if tier == 'quick' else 120)
     rep.extra['crosshair'] = [{k: r_[k] for k in ('name', 'verdict', 'seconds')} for r_ in res]
